@@ -65,6 +65,7 @@ func c17Case(rules []T, viaExpand bool, inputs []string) *h.ProgCase {
 
 func c17Work(w *h.W) {
 	c17RuntimeWork(w)
+	c17BoundVarWork(w)
 	c17NestedWork(w)
 	inputs := c17Inputs(w.Pick(3, 4))
 	n := len(c17Items)
@@ -176,6 +177,28 @@ func c17RuntimeWork(w *h.W) {
 	}
 }
 
+// sub-bodies reached through variables that are bound when the body is translated: control constructs (cut,
+// if-then, negation, terminals) behind a variable are translated in place, exactly as if written there
+func c17BoundVarWork(w *h.W) {
+	builds := []string{"X = !", "X = ([a], !)", "X = ([a] -> [b])", "X = (\\+ [b])", "X = []", "X = [a]", "X = ([a] ; [b])", "X = (!, [a])", "X = {true}", "X = call(u)"}
+	bodies := []string{"([a], X ; [a, b])", "(X | [a, c])", "(X ; [b])", "(X, [b])", "([a], X)", "(X, X)", "(\\+ X, [a] ; [b])", "(u, X ; [])"}
+	cls := rdAll("u --> [a]. u --> [a, b].")
+	for bi, b := range builds {
+		if !w.Mine() {
+			continue
+		}
+		pc := &h.ProgCase{DQ: "chars", Budget: 20000, Steps: []h.ProgStep{h.Consult(cls...)}}
+		for _, body := range bodies {
+			for _, q := range []string{"phrase(" + body + ", L)", "phrase(" + body + ", [a, b], R)", "phrase(" + body + ", [a, c], R)", "phrase(" + body + ", [a|T], R)", "phrase(" + body + ", [b])"} {
+				st := h.Query(rd(b+", "+q), 10)
+				st.Vars = []string{"L", "T", "R"}
+				pc.Steps = append(pc.Steps, st)
+			}
+		}
+		runProgCase(w, "dcg-bound-variable", pc, bi)
+	}
+}
+
 func c17NestedWork(w *h.W) {
 	inputs := c17Inputs(w.Pick(3, 4))
 	tails := []string{"", "[b]", "t(X)", "{Y = k}", "u"}
@@ -210,7 +233,7 @@ var _ = strings.Join
 func init() {
 	h.Register(&h.Check{
 		ID: "C17",
-		Rule: "all grammars whose rule s(X,Y) --> Body ranges over every sequence of <= L body constructs out of 37 (terminal lists, a non-ASCII string and terminal, strings, non-terminals with arguments, {}/1, \\+, !, call//N with extra arguments, ;, |, nested sequences, if-then(-else), a push-back non-terminal) over fixed non-left-recursive sub-grammars t//1, u//0, pb//0, pb2//0, pb3//0 (push-back of one terminal, of two, of a string), v//2; each in 9 variants (followed by a second rule; loaded through expand_term/2 + assertz/1; with a push-back head of one terminal, of two, of a string, empty, of three, with a head variable; as one of two top-level alternatives) x all input lists over {a,b} of length <= N (plus lists with c) through phrase/2 and phrase/3 (all remainders), and generation mode with unbound list / given remainder. plus non-terminals BUILT AT RUN TIME (=../2, functor/3, copy_term/2) of every arity 0..16 (24), the same term instance used several times in 7 bodies x 4 phrase/2,3 queries; plus 7 bodies with a cut NESTED inside a parenthesised alternation / if-then-else x 5 goals before x 5 goals after (known finding: such a cut is local here). Non-trivial = the reference yields an answer or error.",
+		Rule: "all grammars whose rule s(X,Y) --> Body ranges over every sequence of <= L body constructs out of 37 (terminal lists, a non-ASCII string and terminal, strings, non-terminals with arguments, {}/1, \\+, !, call//N with extra arguments, ;, |, nested sequences, if-then(-else), a push-back non-terminal) over fixed non-left-recursive sub-grammars t//1, u//0, pb//0, pb2//0, pb3//0 (push-back of one terminal, of two, of a string), v//2; each in 9 variants (followed by a second rule; loaded through expand_term/2 + assertz/1; with a push-back head of one terminal, of two, of a string, empty, of three, with a head variable; as one of two top-level alternatives) x all input lists over {a,b} of length <= N (plus lists with c) through phrase/2 and phrase/3 (all remainders), and generation mode with unbound list / given remainder. plus non-terminals BUILT AT RUN TIME (=../2, functor/3, copy_term/2) of every arity 0..16 (24), the same term instance used several times in 7 bodies x 4 phrase/2,3 queries; plus sub-bodies behind variables bound at translation time (10 values: cut, sequences with cut, if-then, negation, terminals, alternation, {}//1, call//1) in 8 bodies x 5 queries; plus 7 bodies with a cut NESTED inside a parenthesised alternation / if-then-else x 5 goals before x 5 goals after (known finding: such a cut is local here). Non-trivial = the reference yields an answer or error.",
 		Explanation: "state = one grammar loaded into a fresh real interpreter; transition = one phrase/2,3 query run to exhaustion; compared with a DIRECT interpreter of grammar bodies over difference lists inside the reference machine (sequence threads the remainder, alternation is a choice, {} calls, \\+ consumes nothing, ! commits to the rule, push-back re-prepends) - which never translates a rule - on success/failure, argument bindings, remainder and answer order",
 		Assumptions: []string{"'!' occurs only as a direct element of a rule's top-level sequence or alternative (as C03)", "double_quotes = chars so that \"ab\" denotes [a,b]"},
 		Work:        c17Work,
